@@ -391,9 +391,8 @@ def copyOntoH (fuel : Nat) (s : HState) (src dst : Ref) : Option HState :=
   if src.isVal && dst.isVal then
     match resolveRef s src, resolveRef s dst with
     | some sa, some t =>
-      -- the C compares the two pointers; two references denote the same object exactly when they are equal (the blocks of
-      -- different members are disjoint), so the test is made on the references
-      if src = dst then some s else (cloneOntoAt fuel s.h t sa).map (fun h' => { s with h := h' })
+      -- the pointer test of cif_value_clone / set_element_at / cif_map_set_item: the same object — nothing to do
+      if t = sa then some s else (cloneOntoAt fuel s.h t sa).map (fun h' => { s with h := h' })
     | _, _ => none
   else none
 
